@@ -631,6 +631,7 @@ def judge_block(case, hb, db, ci_names, stats):
             continue
         stats["json_lines"] += 1
         stats["json_level"][str(lvl)] = stats["json_level"].get(str(lvl), 0) + 1
+        stats["json_frate"][jl[5]] = stats["json_frate"].get(jl[5], 0) + 1
         sk = "zero" if st == 0 else "negative" if st < 0 else "below 1 s" if st < 1 else "1 s .. 1 h" if st < 3600 else ">= 1 h"
         stats["json_start"][sk] = stats["json_start"].get(sk, 0) + 1
         if lvl >= 2 and abs(st) >= 1:
@@ -784,7 +785,7 @@ def new_stats():
             "synth": {}, "synth_results_with_skipped_states": 0, "step_model_blocks": 0, "step_model_frames": 0,
             "step_manual_pass_equals_decoder_pass": 0, "step_model_not_applicable": 0, "score_xword_context": 0, "score_first_pass_pruned": 0, "crashes": 0, "grammar_rejected": 0,
             "renorm_probe_blocks": 0, "renorm_probe_fired": 0, "renorm_probe_fired_and_alive": 0,
-            "json_calls": 0, "json_null": 0, "json_lines": 0, "json_level": {}, "json_start": {},
+            "json_calls": 0, "json_null": 0, "json_lines": 0, "json_level": {}, "json_start": {}, "json_frate": {},
             "json_state_level_nonzero_start": 0, "json_lean_ok": 0, "json_bad": 0}
 
 
@@ -914,7 +915,7 @@ def check(c):
                       "renormalize_hmms by the renormalisation probe, but no theorem covers such runs",
                       "JSON observation: |start| <= 1e5 s (the double rounding of start + frame/frate stays below the 1e-9 slack "
                       "of the tolerance 0.0005 + 1e-9) and frame rate <= 500 (a rendered time then determines its frame: "
-                      "`clockOK`, evaluated per call); the frame rate is the model's 100 in every generated case",
+                      "`clockOK`, evaluated per call); generated frame rates: 100 (the models'), 50, 90, 125, 200",
                       "alignments of fewer than 65 535 entries per level (uint16 counters of alignment_vector_t)",
                       "dictionary pronunciations are non-empty (D4) and n_emit_state > 0 (asserted by hmm_context_init)",
                       "buffering modes that allow a second pass: growing feature buffer (default, full_utt, no_search) or a "
@@ -944,6 +945,11 @@ def check(c):
     for cs in cases:
         cs["json"] = gen_json(jrng)
         cs["renormprobe"] = jrng.choice(RENORM_STARTS) if cs.get("dumpsen") and not cs.get("tmatskip") else 0
+        # other frame rates than the models' 100 (the JSON times are start + frame/frate): 1/50, 1/125 and 1/200 s are exact
+        # at three decimals, 1/90 s is not
+        if jrng.chance(0.12):
+            cs["cfg"]["frate"] = jrng.choice(["50", "125", "200", "90"])
+            stats["cfg"]["frate=" + cs["cfg"]["frate"]] = stats["cfg"].get("frate=" + cs["cfg"]["frate"], 0) + 1
     # a few cases also dump the senone scores of a hand-stepped second pass (step model, see driver)
     for cs in cases[:3]:
         c.samples.append({k: cs[k] for k in ("gram", "audio", "mode", "chunk", "partials", "cfg")})
